@@ -35,6 +35,11 @@ const SolicitStreamPrefix = "solicit:"
 // maxMessageSize is the max message size for packet session.
 const maxMessageSize = 256 * 32 * 2 // ~16KB, enough for 256 hashes
 
+// maxWireHashes is the number of hashes one exchange message can carry: each
+// hash takes HashSize bytes plus a 2-byte field header. A longer list is
+// rejected by the reader of the remote peer, which ends the exchange.
+const maxWireHashes = maxMessageSize / (link_solicit.HashSize + 2)
+
 // Controller is the solicitation controller.
 type Controller struct {
 	le        *logrus.Entry
@@ -71,9 +76,13 @@ type linkState struct {
 
 // NewController constructs a new solicitation controller.
 func NewController(le *logrus.Entry, conf *Config) (*Controller, error) {
+	maxHashes := conf.GetMaxHashesOrDefault()
+	if maxHashes > maxWireHashes {
+		maxHashes = maxWireHashes
+	}
 	c := &Controller{
 		le:            le,
-		maxHashes:     conf.GetMaxHashesOrDefault(),
+		maxHashes:     maxHashes,
 		solicitations: make(map[*solicitState]struct{}),
 		links:         make(map[uint64]*linkState),
 	}
